@@ -41,7 +41,8 @@ pub fn builtin_clamp(x: f64, minVal: f64, maxVal: f64) -> f64 {
 
 #[builtin]
 pub fn builtin_sum(arr: Vec<f64>) -> f64 {
-	arr.iter().sum()
+	// Iterator::sum starts from -0.0 for floats, std.sum is a fold from 0.
+	arr.iter().fold(0.0, |a, b| a + b)
 }
 
 #[builtin]
